@@ -156,13 +156,21 @@ func (ir *IntrospectionResolver) resolveType(schema *ast.Schema, typ *ast.Type, 
 			}
 			result[f.Alias] = interfaces
 		case "possibleTypes":
-			if len(namedType.Types) > 0 {
+			// unions list their members, interfaces their implementers; null for every other kind
+			switch {
+			case len(namedType.Types) > 0:
 				types := []map[string]interface{}{}
 				for _, t := range namedType.Types {
 					types = append(types, ir.resolveType(schema, &ast.Type{NamedType: t}, f.SelectionSet))
 				}
 				result[f.Alias] = types
-			} else {
+			case namedType.Kind == ast.Interface || namedType.Kind == ast.Union:
+				types := []map[string]interface{}{}
+				for _, t := range schema.PossibleTypes[namedType.Name] {
+					types = append(types, ir.resolveType(schema, &ast.Type{NamedType: t.Name}, f.SelectionSet))
+				}
+				result[f.Alias] = types
+			default:
 				result[f.Alias] = nil
 			}
 		case "enumValues":
